@@ -9,7 +9,7 @@ CONSTANTS
   Strides = {1}
   SimWidth = 1
   Batches <- MCBatches
-  Ops = {"Set", "MemSet", "Commit", "Rollback", "CommitNP", "RollbackNP", "Reopen"}
+  Ops = {"Set", "MemSet", "Commit", "Rollback", "CommitNP", "RollbackNP", "Reopen", "Redo", "Get"}
   EmitOn = FALSE
   ChkIter = FALSE
 VIEW view
